@@ -67,9 +67,12 @@ def run_case(case):
     n = r.randint(1, 5)
     ps, kinds, sig = make_sig(r, n)
     outkind = r.choice(["scalar", "scalar", "tuple", "dict"])
+    leaf_len = r.choice([0, 0, 3, 2])      # 0: scalar leaves; otherwise every leaf is a vector of that length
     ncomp = 1 if outkind == "scalar" else 2
     coefs = [[r.choice([1, 2, 3, 5, 7, 11, 13, -4, -9])] * 0 + [(k + 1) * (17 ** j) + r.randint(0, 3) for j in range(n)] for k in range(ncomp)]
     comps = [" + ".join(f"{c} * jnp.sum({p})" for c, p in zip(cf, ps)) for cf in coefs]
+    if leaf_len:
+        comps = [f"({c_}) * (jnp.arange({leaf_len}) + 1)" for c_ in comps]
     ret = comps[0] if outkind == "scalar" else (f"({comps[0]}, {comps[1]})" if outkind == "tuple" else f"{{'u': {comps[0]}, 'v': {comps[1]}}}")
     ns = {"jnp": jnp}
     exec(f"def f({sig}):\n    return {ret}\n", ns)  # noqa: S102
@@ -86,7 +89,7 @@ def run_case(case):
                 args[p] = np.array([r.randint(-5, 5) for _ in range(m)])
             else:
                 args[p] = np.array(r.randint(-5, 5)) if r.random() < 0.6 else np.array([r.randint(-5, 5) for _ in range(r.randint(1, 3))])
-        out["sig"] = f"productmap n={n} kinds={''.join(k_[3] for k_ in kinds)} mapped={k} out={outkind} sigorder={[ps.index(v) for v in vars_] == sorted(ps.index(v) for v in vars_)}"
+        out["sig"] = f"leaf={leaf_len} productmap n={n} kinds={''.join(k_[3] for k_ in kinds)} mapped={k} out={outkind} sigorder={[ps.index(v) for v in vars_] == sorted(ps.index(v) for v in vars_)}"
         try:
             res = productmap(f, vars_)(**{p: jnp.asarray(v) for p, v in args.items()})
         except Exception as e:  # noqa: BLE001
@@ -153,7 +156,7 @@ def run_case(case):
                 args[p] = np.array([r.randint(-5, 5) for _ in range(m)])
             else:
                 args[p] = np.array(r.randint(-5, 5))
-        out["sig"] = f"spacemap n={n} kinds={''.join(k_[3] for k_ in kinds)} dense={len(dense)} sparse={len(sparse)} dense_first={dense_first} out={outkind}"
+        out["sig"] = f"leaf={leaf_len} spacemap n={n} kinds={''.join(k_[3] for k_ in kinds)} dense={len(dense)} sparse={len(sparse)} dense_first={dense_first} out={outkind}"
         try:
             res = spacemap(f, dense_vars=dense, sparse_vars=sparse, put_dense_first=dense_first)(**{p: jnp.asarray(v) for p, v in args.items()})
         except Exception as e:  # noqa: BLE001
@@ -175,14 +178,19 @@ def run_case(case):
                     o[full] = sum(c * int(np.sum(loc[p])) for c, p in zip(cf, ps))
             return o
         req = {"op": "dispatch", "kind": "spacemap", "params": ps, "coefs": coefs, "dense": dense, "sparse": sparse, "dense_first": dense_first}
+    req["leaf_len"] = leaf_len
     req["args"] = {p: {"shape": list(np.asarray(v).shape), "data": [str(int(x)) for x in np.asarray(v).ravel()]} for p, v in args.items()}
     model = driver().call(req)
     comps_impl = [res] if outkind == "scalar" else (list(res) if outkind == "tuple" else [res["u"], res["v"]])
     out["evals"] = 1
     out["hist"][f"out={outkind}"] = 1
+    out["hist"][f"leaf_len={leaf_len}"] = 1
     for cidx, (ci, cf, mo) in enumerate(zip(comps_impl, coefs, model)):
         ci = np.asarray(ci)
         orc = oracle(cf)
+        if leaf_len:
+            # nested loops: every entry is the vector (k+1) * scalar; extra leaf dimensions come after the mapped axes
+            orc = orc[..., None] * (np.arange(leaf_len) + 1)
         desc = f"def f({sig}) -> {outkind}; {req['kind']} {({k: req[k] for k in ('vars', 'dense', 'sparse', 'dense_first') if k in req})}; args { {p: np.asarray(v).tolist() for p, v in args.items()} }"
         if list(ci.shape) != list(orc.shape) or not np.array_equal(ci.astype(np.int64), orc):
             vs.append({"clause": "entry (i1..ik) = function at the i1-th..ik-th elements, axes in the order the names were listed", "detail": f"{desc}: component {cidx}: implementation shape {list(ci.shape)} {ci.tolist()}, nested loops shape {list(orc.shape)} {orc.tolist()}", "key": "C19:loops"})
